@@ -1088,6 +1088,12 @@ def run(args):
                         # a known finding does not excuse the model: it has to follow what the code does there
                         corr_fail.append(dict(entry, why="real assembler and Lean model disagree (on an input of a known finding's class)"))
                 elif not mok:
+                    # observation limit, not a difference: an integer turned into a string by "..."+int can contain a NUL byte
+                    # ($AB00F503 -> AB 00 F5 03), and the symbol's value is shown by MESSAGE up to that byte only
+                    m_ = x["model"]
+                    if (m_.startswith("S") and "00" in [m_[1:][k:k + 2] for k in range(0, len(m_) - 1, 2)] and x["real"][0] == "val"
+                            and x["real"][1] == bytes.fromhex(m_[1:]).split(b"\0")[0].decode("latin-1")):
+                        continue
                     entry["why"] = "real assembler and Lean model disagree (the documented value is met)"
                     corr_fail.append(entry)
 
